@@ -37,5 +37,8 @@ def to_sympy(poly: PolyLike) -> Any:
     from sympy import symbols  # type: ignore
 
     locals_ = dict(zip(poly.names, symbols(poly.names)))
-    polynomial = eval(str(poly), locals_, {})  # pylint: disable=eval-used
+    # the text is evaluated as Python, whatever the display options say
+    with numpoly.global_options(display_exponent="**", display_multiply="*"):
+        string = str(poly)
+    polynomial = eval(string, locals_, {})  # pylint: disable=eval-used
     return polynomial
